@@ -153,4 +153,12 @@ theorem stamp_getElem (n : Nat) (l : List (Order σ α)) (i : Nat) (h : i < l.le
       have : n + 1 + i = n + (i + 1) := by omega
       rw [this]
 
+/-- the empty exchange, `UistV1::new()` -/
+def uinit : Uist σ α := { book := { inner := [], last := 0 }, log := [], buffer := [] }
+
+/-- every state reachable from the empty exchange by any sequence of insert / delete / tick
+    (with any admission order) satisfies the id invariant the one-tick theorems need -/
+theorem reachable_inv (ops : List (Op σ α)) : BookInv (run (uinit : Uist σ α) {} ops).1.book :=
+  (run_conserved ops uinit {} ⟨⟨by simp [uinit], by simp [uinit]⟩, by simp [uinit, ids]⟩).1
+
 end PU
